@@ -1,7 +1,7 @@
 # pid, technique, level text, level note, design ref
 NOT_APPLICABLE = {}
 
-reg("C01", "runtime monitoring: membership oracle on every eager call over the full configuration lattice x breakpoint probes",
+reg("C01", "runtime monitoring: membership oracle on every eager call over the full configuration lattice x breakpoint probes; the same oracle online under the repository's own tests (pytest plugin); configurations also reached by attribute re-assignment, traced tf.function calls, per-channel tensor scales",
     "Every configuration of the fixed-point lattice (bits 1..8 quick / ..16 thorough) is executed on a probe set holding every code and rounding breakpoint +-2 ulp, the saturation edges, zeros/denormals and random tensors of rank 1..4; an exact dyadic-arithmetic oracle decides code membership, the 2^bits bound, min()/max() enclosure and range()==reachable set. Exploration, because inputs are sampled at the boundaries that matter, not enumerated.",
     "Domain: |x| < 2^22 output grains (float32 absorption), supported slopes/bounds only.", "5/C01")
 
@@ -9,11 +9,11 @@ reg("C02", "runtime monitoring: exact dyadic reference model compared element-wi
     "Same lattice and probe sets as C01; every output is compared with the exact projection e = clip(s(x)/step, lo, hi) (|code - e| <= 1/2, ties either way), outputs must be non-decreasing over the sorted probes and q(q(x)) == q(x) for linear/plain-ReLU formats. Exploration over boundary-dense inputs.",
     "tanh/sigmoid surrogates get 8 float32 ulps of slack; inversions of TF's own tanh/sigmoid kernels inside a tie band are not counted.", "5/C02")
 
-reg("C03", "runtime monitoring: frexp-exact power-of-two oracle, independent exponent-interval rule, banded nearest/floor exponent reference, monotone/idempotent/min-max checks",
+reg("C03", "runtime monitoring: frexp-exact power-of-two oracle, independent exponent-interval rule, banded nearest/floor exponent reference, monotone/idempotent/min-max checks; membership oracle online under the repository's own tests",
     "All (class, bits 2..8, max_value, slope, rounding mode) configurations x every exponent breakpoint (+-ulps and +-2e-4), zeros/denormals, the epsilon floor, the max_value edge and log-uniform random tensors of rank 1..4.",
-    "Inside |log2|x| - breakpoint| <= 3e-5 either neighbour is accepted (float32 log); |x| below 2^22 times the largest code.", "5/C03")
+    "Inside |log2|x| - breakpoint| <= min(3e-5, 6e-7*(|log2 x|+1)) either neighbour is accepted (float32 log); |x| below 2^22 times the largest code (positive inputs of relu_po2 with max_value: unbounded).", "5/C03")
 
-reg("C04", "runtime monitoring: code-set / sign / threshold oracles on outputs plus read-back of `scale` against an independent group-wise least-squares model",
+reg("C04", "runtime monitoring: code-set / sign / threshold oracles on outputs plus read-back of `scale` against an independent group-wise least-squares model; construction routes (alpha re-assigned, _set_trainable_parameter); code-set oracle online under the repository's own tests",
     "Binary/ternary (and the inference path of the stochastic classes) over alpha modes x use_01 x thresholds x scale_axis / elements_per_scale groupings x exponent bounds x adversarial tensors of rank 1..4; scale constancy per independently derived group, least-squares optimum, po2-ness and exponent clipping, ternary threshold rule incl. the documented auto iteration.",
     "Reference adds the library's epsilon to the denominator; rank-1 tensors with explicit grouping are observed only.", "5/C04")
 
